@@ -2,7 +2,8 @@
 import re
 
 from . import lib_c04 as L
-from .lib import callee_allow, callers, const_int, result_split, status_const_of_ctor
+from .core import AnchorLost
+from .lib import callee_allow, callers, result_split
 
 LEVEL = "other"
 TECHNIQUE = ("static analysis: role-based recognition of the version-filtered scan of node.methods on lookup_route's normalised MIR (helpers inlined, combinators desugared), "
@@ -10,60 +11,92 @@ TECHNIQUE = ("static analysis: role-based recognition of the version-filtered sc
 LEVEL_TEXT = ("Decides on all paths of lookup_route's MIR (normalised view: refactoring helpers inlined, Option/Result combinators as switches): the 405 constructor is reached only when a test of "
               "emptiness of the *served-names scan* came out non-empty — the scan being an iteration over the matched node's method table that keeps exactly the entries for which "
               "find_handler_matching_version(that entry's handlers, the request's version) is Some, in any of the enumerated spellings (any(..); first element / peek / count of a lazily "
-              "filtered iterator; is_empty/len of the collected or pushed names; a flag set in the filtering loop) — and for_not_found (evaluated 404) is built when the same test came out empty "
+              "filtered iterator; is_empty/len of the collected or pushed names; a flag set in the filtering loop; the outcome of one fold over the table whose Option accumulator starts None, is handed on "
+              "unchanged for entries not served and becomes Some(405 error) only in a step whose entry is served, the 405 being built lazily inside that step) — and for_not_found "
+              "(evaluated 404: the constant reaching its status_code field, wherever declared) is built when the same test came out empty "
               "and for the unmatched-path case; every Allow header value is an element of that scan (per-item guard in a loop, item of a for_each over the filtered iterator, element of the "
-              "collection of served names) and Allow is added nowhere else; the per-method lookup, the scan and the Allow source read one node value; lookup_route calls no handler and its `?` "
-              "in http_request_handle dominates both handler invocations. "
+              "collection of served names, the own entry of a fold step guarded inside the step) and Allow is added nowhere else; the per-method lookup, the scan and the Allow source read one node value; lookup_route calls no handler and its `?` "
+              "in http_request_handle dominates both handler invocations. When lookup_route's body is split off into a helper too large for the inliner, the rules are evaluated on the "
+              "one function lookup_route hands the request to, and the hand-over is checked (the version argument is lookup_route's version parameter, the result is returned as is). "
               "Together with C05's exact membership table this is the whole 404/405/Allow decision, for every table and version.")
-LEVEL_NOTE = "Trusts rustc MIR, the extractor, the engine's helper inlining / combinator normalisation, BTreeMap::{get,values,iter}, Iterator::{any,filter,filter_map,map,next,count,collect,for_each} and HttpError::add_header's insertion semantics."
+LEVEL_NOTE = "Trusts rustc MIR, the extractor, the engine's helper inlining / combinator normalisation, BTreeMap::{get,values,iter}, Iterator::{any,filter,filter_map,map,next,count,collect,for_each,fold} and HttpError::add_header's insertion semantics."
 EXPLANATION = ("Rules over the normalised MIR of router::lookup_route and server::http_request_handle from the current tree: TABLE (an emptiness test of the version-filtered scan of node.methods "
                "-> 405 / 404 constructors with evaluated status constants), SAME-SOURCE (the filter closure's captured version is lookup_route's version parameter; the handler list it tests and "
                "the name it yields are parts of one iterator item; lookup, scan and Allow source read one node), DOM (path facts: the test's outcome is established on every path to the "
                "constructor; each Allow value is an element of the filtered scan), WHO-CALLS (ALLOW insertions, handle_request).")
 TRUSTED = ["rustc nightly MIR + const evaluation", "mirfacts extractor", "rules/engine.py (incl. helper inlining and the combinator normalisation of ctx.dsn), rules/lib.py, rules/lib_c04.py",
-           "std BTreeMap / Iterator adaptor semantics (any, filter, filter_map, map, next, peek, count, collect, for_each)", "C05 (ApiEndpointVersions::matches is exact)"]
+           "std BTreeMap / Iterator adaptor semantics (any, filter, filter_map, map, next, peek, count, collect, for_each, fold)", "C05 (ApiEndpointVersions::matches is exact)"]
 
 
-def _lr(ctx, R):
+def _entry(ctx, R):
     # the normalised view: helpers introduced by a refactoring are inlined, Option/Result combinators are switches
     return ctx.need_fn(ctx.dsn, R, r"^router::HttpRouter::<Context>::lookup_route$")
 
 
-def _c405(lr):
-    return [(bb, t) for bb, t in lr.live_calls(r"^error::HttpError::for_client_error") if any(const_int(a) == 405 for a in t["args"])]
+def _lr(ctx, R, report=False):
+    """The function holding the routing decision: lookup_route, or — when its body was split off into a helper the
+    engine does not inline (too large) — the one function lookup_route hands the request to.  The hand-over itself is
+    checked once (by R1, `report=True`): same version, result returned as is."""
+    entry = _entry(ctx, R)
+    body, chain, why = L.routing_body(ctx.dsn, entry)
+    if body is None:
+        ctx.lost(R, "the function holding lookup_route's routing decision (%s)" % why)
+        raise AnchorLost(why)
+    if report:
+        for cur, bb, t, g in chain:
+            ok, detail = L.delegation_faithful(cur, bb, t, g)
+            ctx.check(R, "lookup-body-handover:%s" % g.id.split("::")[-1], ok, detail, (cur, bb))
+    return body
 
 
 def r1_decision(ctx):
     R = ctx.rule("C04.R1", "the 405 error is built only when some method at the matched node is served at the request's version — decided by a test of emptiness of the "
                  "version-filtered scan of node.methods (any(..), a first element of the lazily filtered iterator, a non-empty collection of the methods that passed the "
-                 "filter, a flag set in the filtering loop); otherwise, and for an unmatched path, for_not_found (404) is built", floor=6)
-    lr = _lr(ctx, R)
+                 "filter, a flag set in the filtering loop, a fold over node.methods whose Option accumulator is Some iff an entry passed the filter); otherwise, and for an "
+                 "unmatched path, for_not_found (404) is built", floor=6)
+    lr = _lr(ctx, R, report=True)
     vparam = L.version_param(lr)
-    c405 = _c405(lr)
-    ctx.check(R, "one-405-site", len(c405) == 1, "405 constructor sites in lookup_route: %d" % len(c405), lr)
+    c405 = L.c405_sites(ctx.dsn, lr)
+    ctx.check(R, "one-405-site", len(c405) == 1, "405 constructor sites in lookup_route and its closures: %d" % len(c405), lr)
     if len(c405) != 1:
         return
-    bb405 = c405[0][0]
+    f405, bb405, t405 = c405[0]
     nf = lr.live_calls(r"^error::HttpError::for_not_found$")
     chosen, idiom, detail = None, None, ""
-    # role (b): an emptiness test of the served-names source (role a) came out "non-empty" on every path to the 405
-    for T in L.decision_tests(lr, vparam):
-        if not T.served(bb405):
-            continue
-        if T.ok:
-            chosen, idiom = T, T.idiom
-            detail = "405 is reached only when this test found a served method: " + T.why
-            break
-        detail = "a test guards the 405 but it does not decide `some method of the node is served at the request's version`: " + T.why
-    # a flag set inside a loop over node.methods (`for h in values { if find(h, version).is_some() { found = true; break } }`):
-    # every path to the 405 has itself established find(handlers-of-an-item, request version) as Some
-    if chosen is None:
-        okf, nexts, why = L.version_filtered_item(lr, bb405, vparam)
-        if okf:
-            idiom = "flag"
-            detail = "405 is reached only on paths that found an item of node.methods with find_handler_matching_version(its handlers, request version) being Some"
+    tests = L.decision_tests(lr, vparam)
+    # `anchor`: the block of lookup_route at which the 405 comes into existence (the constructor, or the fold that builds it lazily)
+    anchor = bb405 if f405 is lr else None
+    if f405 is lr:
+        # role (b): an emptiness test of the served-names source (role a) came out "non-empty" on every path to the 405
+        for T in tests:
+            if T.idiom == "fold" or not T.served(bb405):
+                continue
+            if T.ok:
+                chosen, idiom = T, T.idiom
+                detail = "405 is reached only when this test found a served method: " + T.why
+                break
+            detail = "a test guards the 405 but it does not decide `some method of the node is served at the request's version`: " + T.why
+        # a flag set inside a loop over node.methods (`for h in values { if find(h, version).is_some() { found = true; break } }`):
+        # every path to the 405 has itself established find(handlers-of-an-item, request version) as Some
+        if chosen is None:
+            okf, nexts, why = L.version_filtered_item(lr, bb405, vparam)
+            if okf:
+                idiom = "flag"
+                detail = "405 is reached only on paths that found an item of node.methods with find_handler_matching_version(its handlers, request version) being Some"
+    else:
+        # the 405 is built lazily inside the step of a fold over node.methods whose Option accumulator is Some iff a served entry was seen
+        detail = "the 405 constructor sits in a closure that is not the step of a fold over the node's method table"
+        for T in tests:
+            if T.idiom != "fold" or T.fold["h"] is not f405:
+                continue
+            anchor = T.bb
+            if T.ok:
+                chosen, idiom = T, "fold"
+                detail = "the 405 comes into existence only in a fold step whose entry is served at the request's version: " + T.why
+                break
+            detail = "the 405 is built inside a fold over the node's method table, but its accumulator is not `Some iff some method is served at the request's version`: " + T.why
     ctx.check(R, "405-only-if-some-method-served-at-version", idiom is not None,
-              detail or "the 405 constructor is not guarded by a version-filtered scan of node.methods (facts on a path reaching it: %s)" % ((lr.bool_states_at(bb405) or ["unreachable"])[:1]), (lr, bb405))
+              detail or "the 405 constructor is not guarded by a version-filtered scan of node.methods (facts on a path reaching it: %s)" % ((lr.bool_states_at(bb405) or ["unreachable"])[:1]), (f405, bb405))
     # the tail 404: reached when the deciding test failed
     tail = []
     if chosen is not None:
@@ -71,10 +104,11 @@ def r1_decision(ctx):
     elif idiom == "flag":
         # the flag's false case cannot be expressed as a path fact; require the alternative: a for_not_found after the scan from which the 405 is unreachable
         tail = [bb for bb, t in nf if bb405 not in lr.reachable(bb) and any(lr.dominates(b2, bb) for b2, _ in lr.live_calls(L.FIND))]
-    ctx.check(R, "404-when-no-method-served", len(tail) >= 1 and not any(bb405 in lr.reachable(b) for b in tail),
+    ctx.check(R, "404-when-no-method-served", len(tail) >= 1 and anchor is not None and not any(anchor in lr.reachable(b) for b in tail),
               "for_not_found sites reached exactly when the version-filtered scan found nothing: %d" % len(tail), lr)
-    s404 = status_const_of_ctor(ctx.ds, "for_not_found")
-    ctx.check(R, "for_not_found-is-404", s404 == {404}, "status constants in for_not_found: %s" % sorted(s404 or []), lr)
+    # the status of the constructor: the evaluated constant that reaches the `status_code` field, wherever it is declared
+    s404 = L.ctor_status(ctx.ds, "for_not_found")
+    ctx.check(R, "for_not_found-is-404", s404 == {404}, "evaluated constants reaching for_not_found's status_code: %s" % sorted(s404 or []), lr)
     # same node as the method lookup: every read of a `.methods` table after the walk — the per-method lookup, the 404/405 scan and
     # the Allow loop — goes through the SAME node value (adversary change C04-C let the success path use the wildcard's child and
     # the failure tail its parent)
@@ -88,10 +122,12 @@ def r1_decision(ctx):
     # unmatched path -> for_not_found, whatever the idiom (ok_or_else closure, match, let-else)
     walk_nf = [bb for bb, t in nf if bb not in tail]
     ctx.check(R, "unmatched-path-is-404", bool(walk_nf), "walk failure (no edge for the segment) builds for_not_found: %s" % bool(walk_nf), lr)
-    after = lr.reachable(bb405)
+    after = lr.reachable(anchor) if anchor is not None else set()
     errs = [(b, st2) for b, i, st2 in lr.aggregates(r"^std::result::Result$", "Err") if st2["pl"]["l"] == 0 and not st2["pl"]["p"] and b in after]
-    okr = bool(errs) and all(("call", c405[0][1]["callee"], bb405) in lr.slice(st2["rv"]["ops"][0]).atoms for b, st2 in errs)
-    ctx.check(R, "405-arm-returns-the-405-error", okr, "every Err(..) returned after the 405 constructor carries that error: %s (%d sites)" % (okr, len(errs)), (lr, bb405))
+    # the value that carries the 405: the constructor's result, or (fold idiom) the fold's result whose Some payload is the error
+    carrier = ("call", (t405 if f405 is lr else lr.blocks[anchor]["term"])["callee"], anchor) if anchor is not None else None
+    okr = bool(errs) and all(carrier in lr.slice(st2["rv"]["ops"][0]).atoms for b, st2 in errs)
+    ctx.check(R, "405-arm-returns-the-405-error", okr, "every Err(..) returned after the 405 came into existence carries that error: %s (%d sites)" % (okr, len(errs)), (f405, bb405))
 
 
 def _allow_adds(ctx):
@@ -105,7 +141,7 @@ def _allow_adds(ctx):
 
 def r2_allow_truthful(ctx):
     R = ctx.rule("C04.R2", "every add_header(ALLOW, m) adds a method m of node.methods whose own handler list is served at the request's version "
-                 "(guarded per item, or m is an element of the version-filtered iterator / of the collection of methods that passed that filter)", floor=2)
+                 "(guarded per item in a loop or in a fold step, or m is an element of the version-filtered iterator / of the collection of methods that passed that filter)", floor=2)
     lr = _lr(ctx, R)
     vparam = L.version_param(lr)
     adds = _allow_adds(ctx)
@@ -134,6 +170,19 @@ def r2_allow_truthful(ctx):
                     detail = "the Allow value is an element of: " + "; ".join(rec["why"] for k, rec in kinds)
                     if not clean:
                         detail = "the Allow value is computed from, not taken from, the served method names"
+        elif f in kids and L.closure_sites(lr, f) and all(re.search(L.FOLD, st["callee"]) for sbb, st, agg in L.closure_sites(lr, f)):
+            # the step of a fold over node.methods: the add is guarded per item inside the step
+            recs = [L.fold_accumulator(lr, sbb, st, vparam) for sbb, st, agg in L.closure_sites(lr, f)]
+            from_node = all(rec["roots"] for rec in recs)
+            mine = [a for rec in recs for a in rec["adds"] if a["bb"] == bb]
+            good = all(rec["ok"] for rec in recs) and bool(mine) and all(a["value_ok"] and a["guarded"] for a in mine)
+            if good:
+                detail = "the Allow value is the key of the fold step's own entry, added only where find_handler_matching_version(its handlers, request version) is Some"
+            elif not all(rec["ok"] for rec in recs):
+                detail = "the closure adding Allow is the step of a fold, but: " + "; ".join(rec["why"] for rec in recs if not rec["ok"])
+            else:
+                detail = "in the fold step the Allow value is the entry's own key=%s, the add is reached only for an entry served at the request's version=%s" % (
+                    all(a["value_ok"] for a in mine), all(a["guarded"] for a in mine))
         elif f in kids:
             # the body of a `for_each` over the served names
             sites = L.closure_sites(lr, f)
@@ -163,7 +212,9 @@ def r2_allow_truthful(ctx):
 def r3_allow_only_on_405(ctx):
     R = ctx.rule("C04.R3", "an Allow header is added in the 405 arm of lookup_route and nowhere else in the crate", floor=1)
     lr = _lr(ctx, R)
-    c405 = _c405(lr)
+    vparam = L.version_param(lr)
+    c405 = L.c405_sites(ctx.dsn, lr)
+    in_lr = len(c405) == 1 and c405[0][0] is lr
     kids = ctx.dsn.children(lr)
     n = 0
     for f in ctx.dsn.F.values():
@@ -173,16 +224,24 @@ def r3_allow_only_on_405(ctx):
             n += 1
             ok = on_err = False
             if f is lr:
-                ok = len(c405) == 1 and lr.dominates(c405[0][0], bb)
+                ok = in_lr and lr.dominates(c405[0][1], bb)
                 # the constant flows into an add_header on the 405 error
                 for abb, at in lr.live_calls(r"^error::HttpError::add_header$"):
                     if lr.slice(at["args"][1]).has_const_path(r"header::ALLOW$") and lr.slice(at["args"][0]).has_call(r"for_client_error"):
                         on_err = True
+            elif f in kids and len(c405) == 1 and c405[0][0] is f:
+                # the step of a fold that builds the 405 lazily: the step is run by that fold only, and the error it adds to
+                # is the one carried in the accumulator or the 405 it has just built
+                sites = L.closure_sites(lr, f)
+                recs = [L.fold_accumulator(lr, sbb, st, vparam) for sbb, st, agg in sites if re.search(L.FOLD, st["callee"])]
+                ok = bool(sites) and len(recs) == len(sites) and all(rec["ok"] for rec in recs)
+                adds = [a for rec in recs for a in rec["adds"]]
+                on_err = ok and bool(adds) and all(a["recv_ok"] for a in adds)
             elif f in kids:
                 # a closure of lookup_route (the body of a for_each): every place that runs it is in the 405 arm, and the
                 # error it adds to is the captured 405 error
                 sites = L.closure_sites(lr, f)
-                ok = len(c405) == 1 and bool(sites) and all(lr.dominates(c405[0][0], sbb) for sbb, st, agg in sites)
+                ok = in_lr and bool(sites) and all(lr.dominates(c405[0][1], sbb) for sbb, st, agg in sites)
                 for abb, at in f.live_calls(r"^error::HttpError::add_header$"):
                     if f.slice(at["args"][1]).has_const_path(r"header::ALLOW$"):
                         on_err = bool(sites)
@@ -191,14 +250,14 @@ def r3_allow_only_on_405(ctx):
                             if not ups or not all(lr.slice(u).has_call(r"for_client_error") for u in ups):
                                 on_err = False
             ctx.check(R, "allow-use:%s" % f.id, ok and on_err,
-                      "use of header::ALLOW %s dominated by the 405 constructor; it is added to the 405 error=%s" % ("is" if ok else "is NOT", on_err), (f, bb))
+                      "use of header::ALLOW %s confined to where the 405 exists (dominated by its constructor / inside the fold step that builds it); it is added to the 405 error=%s" % ("is" if ok else "is NOT", on_err), (f, bb))
     if n == 0:
         ctx.check(R, "allow-header-present", False, "header::ALLOW is not used anywhere: a 405 would carry no Allow header", lr)
 
 
 def r4_no_handler(ctx):
     R = ctx.rule("C04.R4", "lookup_route invokes no handler; in http_request_handle the `?` on its result dominates both handle_request calls", floor=3)
-    lr = _lr(ctx, R)
+    lr = _entry(ctx, R)
     reg = ctx.dsn.region([lr.id])
     bad = []
     for fid in reg:
@@ -300,6 +359,69 @@ SELFTEST = [
     {"name": "lazy-filter-inverted-decision", "kind": "mutant", "expect": ["C04.R1"], "edits": [
         ("dropshot/src/router.rs", _ANY, "        if node.methods.iter().filter_map(|(name, handlers)| find_handler_matching_version(handlers, version).map(|_| name)).next().is_none() {")],
      "why": "405 when nothing is served at the version, 404 when something is"},
+]
+
+# the whole 404/405 tail of lookup_route as written in the pinned tree, and the same decision as ONE fold with an Option accumulator
+_TAIL = (_ANY + "\n            let mut err = HttpError::for_client_error_with_status(\n                None,\n                ClientErrorStatusCode::METHOD_NOT_ALLOWED,\n            );\n\n"
+         "            // Add `Allow` headers for the methods that *are* acceptable for\n            // this path, as specified in \u00a7 15.5.0 RFC9110, which states:\n            //\n"
+         "            // > The origin server MUST generate an Allow header field in a\n            // > 405 response containing a list of the target resource's\n"
+         "            // > currently supported methods.\n            //\n            // See: https://httpwg.org/specs/rfc9110.html#status.405\n"
+         "            if let Some(hdrs) = err.headers.as_deref_mut() {\n                hdrs.reserve(node.methods.len());\n            }\n" + _LOOP +
+         "\n            Err(err)\n        } else {\n            Err(HttpError::for_not_found(\n                None,\n                format!(\n"
+         "                    \"route has no handlers for version {}\",\n                    match version {\n                        Some(v) => v.to_string(),\n"
+         "                        None => String::from(\"<none>\"),\n                    }\n                ),\n            ))\n        }\n")
+
+
+def _fold(test="find_handler_matching_version(handlers, version).is_none()", value="allowed"):
+    return ("        let method_not_allowed: Option<HttpError> = node.methods.iter().fold(None, |partial, (allowed, handlers)| {\n"
+            "            if " + test + " {\n                return partial;\n            }\n"
+            "            let mut err = partial.unwrap_or_else(|| {\n"
+            "                HttpError::for_client_error_with_status(None, ClientErrorStatusCode::METHOD_NOT_ALLOWED)\n            });\n"
+            "            err.add_header(http::header::ALLOW, " + value + ").expect(\"method should be a valid allow header\");\n"
+            "            Some(err)\n        });\n"
+            "        Err(method_not_allowed.unwrap_or_else(|| {\n"
+            "            let label = version.map_or_else(|| String::from(\"<none>\"), Version::to_string);\n"
+            "            HttpError::for_not_found(None, format!(\"route has no handlers for version {}\", label))\n        }))\n")
+
+
+_HEAD = ("        let all_segments = input_path_to_segments(&path).map_err(|_| {\n            HttpError::for_bad_request(\n                None,\n"
+         "                String::from(\"invalid path encoding\"),\n            )\n        })?;\n        let mut all_segments = all_segments.into_iter();\n")
+
+
+def _split(version):
+    return ("        let all_segments = input_path_to_segments(&path).map_err(|_| {\n            HttpError::for_bad_request(\n                None,\n"
+            "                String::from(\"invalid path encoding\"),\n            )\n        })?;\n"
+            "        self.lookup_segments(method, all_segments.into_iter(), " + version + ")\n    }\n\n"
+            "    fn lookup_segments(\n        &self,\n        method: &Method,\n        mut all_segments: impl Iterator<Item = String>,\n"
+            "        version: Option<&Version>,\n    ) -> Result<RouterLookupResult<Context>, HttpError> {\n")
+
+
+_NF = ("        let status_code = ErrorStatusCode::NOT_FOUND;\n        let external_message =\n            status_code.canonical_reason().unwrap().to_string();\n"
+       "        HttpError {\n            status_code,\n            error_code,\n            internal_message,\n            external_message,\n            headers: None,\n        }\n")
+
+
+def _nf(const):
+    return ("        const STATUS: ErrorStatusCode = ErrorStatusCode::" + const + ";\n"
+            "        HttpError {\n            status_code: STATUS,\n            error_code,\n"
+            "            external_message: String::from(STATUS.canonical_reason().unwrap()),\n            internal_message,\n            headers: None,\n        }\n")
+
+
+SELFTEST += [
+    {"name": "fold-lazy-405", "kind": "benign", "edits": [("dropshot/src/router.rs", _TAIL, _fold())],
+     "why": "one fold over node.methods with an Option<HttpError> accumulator: the 405 is built lazily in the first step whose entry is served at the version, every such "
+            "step adds its Allow value, the 404 is built when the fold ended with None"},
+    {"name": "fold-keeps-unserved", "kind": "mutant", "expect": ["C04.R1", "C04.R2"], "edits": [("dropshot/src/router.rs", _TAIL, _fold(test="find_handler_matching_version(handlers, version).is_some()"))],
+     "why": "fold idiom with the per-item test inverted: the accumulator becomes Some (405) for entries NOT served at the version and Allow lists them"},
+    {"name": "fold-ignores-version", "kind": "mutant", "expect": ["C04.R1", "C04.R2"], "edits": [("dropshot/src/router.rs", _TAIL, _fold(test="find_handler_matching_version(handlers, None).is_none()"))],
+     "why": "fold idiom filtering by `None` instead of the request's version"},
+    {"name": "fold-allow-is-requested-method", "kind": "mutant", "expect": ["C04.R2"], "edits": [("dropshot/src/router.rs", _TAIL, _fold(value="&methodname"))],
+     "why": "fold idiom whose Allow value is the requested (unserved) method name instead of the step's own entry"},
+    {"name": "split-body", "kind": "benign", "edits": [("dropshot/src/router.rs", _HEAD, _split("version"))],
+     "why": "the body of lookup_route moved into a private generic lookup_segments (too large for the engine's inliner): the rules follow the hand-over"},
+    {"name": "split-body-drops-version", "kind": "mutant", "expect": ["C04.R1"], "edits": [("dropshot/src/router.rs", _HEAD, _split("None"))],
+     "why": "the split-off body is handed `None` instead of the request's version"},
+    {"name": "for_not_found-inner-const", "kind": "benign", "edits": [("dropshot/src/error.rs", _NF, _nf("NOT_FOUND"))], "why": "the 404 comes from a `const STATUS` declared inside for_not_found"},
+    {"name": "for_not_found-inner-const-410", "kind": "mutant", "expect": ["C04.R1"], "edits": [("dropshot/src/error.rs", _NF, _nf("GONE"))], "why": "the inner const evaluates to 410"},
 ]
 
 LEVEL_TEXT += " Also (R5): add_header appends and HttpError::into_response moves the error's header map into the response as a whole, so every collected Allow value reaches the wire."
